@@ -831,6 +831,8 @@ func c16hBody(c c16hCase, info *c16hInfo) *vlib.Failure {
 			}
 		}
 		if plain {
+			label(true, "real VT: console compared with the reference terminal")
+			label(bytes.Count(got, []byte{'\n'}) >= int(cs.h), "real VT: console scrolled")
 			want := c16RefTerm(int(cs.w), int(cs.h), got)
 			for k, cell := range cs.cells {
 				if cell != (c16Cell{want[k], 7, 0}) {
